@@ -45,6 +45,10 @@ fn main() {
             let path = args.positional.get(0).unwrap_or_else(|| harness_error("replay: missing file"));
             let text = std::fs::read_to_string(path).unwrap_or_else(|e| harness_error(&format!("{}: {}", path, e)));
             let j = Json::parse(&text).unwrap_or_else(|e| harness_error(&format!("{}: {}", path, e)));
+            if j.get("process_prefix").is_some() {
+                let exe = std::env::current_exe().unwrap_or_else(|e| harness_error(&e.to_string()));
+                std::process::exit(verifsim::driver::prefix_replay(&exe, &j));
+            }
             match j.get("engine").and_then(|e| e.as_str()) {
                 Some("seam") => seam_engine::replay(&j),
                 Some("history") => history_engine::replay(&j),
